@@ -649,7 +649,7 @@ var dense = []string{`"`, `\`, "u", "n", "0", "1", "a", "e", "E", "_", ".", "-",
 	"\ufffd", "\ufeff", "\u00e9", "\U0001F600", "\u0001"}
 
 func randomToken(r *hx.Rand) string {
-	names := []string{"a", "_", "query", "e", "E1", "x_9", "true", "null", "u00e9", "n"}
+	names := []string{"a", "_", "query", "e", "E1", "x_9", "true", "null", "u00e9", "n", "z", "Z", "A", "azAZ_09", "_0"}
 	punct := []string{"!", "$", "(", ")", "...", ":", "=", "@", "[", "]", "{", "|", "}"}
 	digits := func(n int) string {
 		var sb strings.Builder
@@ -858,12 +858,37 @@ func main() {
 	// 7. line terminators and positions
 	ltAlpha := []string{"\n", "\r", "a", " ", "#", `"`, ","}
 	words(b, "line-terminator", ltAlpha, 0, run.Scale(5, 7), "", "", mixed)
+	// 8. range boundaries: names and digits with the characters just outside [_A-Za-z0-9]
+	nameAlpha := []string{"a", "z", "A", "Z", "_", "0", "9", "@", "[", "`", "{", "/", ":"}
+	words(b, "name-boundary", nameAlpha, 0, run.Scale(4, 5), "", "", mixed)
+	// 9. every pair of ASCII characters (punctuator set, stray characters), alone and after a token
+	ascii := make([]string, 128)
+	for i := range ascii {
+		ascii[i] = string(rune(i))
+	}
+	words(b, "ascii-pairs", ascii, 1, 2, "", "", mixed)
+	words(b, "ascii-after-name", ascii, 1, 1, "a", "b", all1)
+	// 10. every ASCII character after a backslash, in quoted and block strings; hex digit boundaries
+	words(b, "escape-ascii", ascii, 1, 1, `"\`, `"`, all1)
+	words(b, "escape-ascii", ascii, 1, 1, `"""\`, `"""`, all1)
+	hexEdge := []string{"/", "0", "9", ":", "@", "A", "F", "G", "`", "a", "f", "g"}
+	words(b, "unicode-escape-boundary", hexEdge, 4, 4, `"\u`, `"`, all1)
+	// 11. SourceCharacter boundaries inside and outside strings and comments
+	srcEdge := []string{"\u001f", " ", "\u007f", "\u000b", "\u000c", "\uffff", "\U00010000", "\ufffd", "\ufeff", "a", "\n"}
+	for i, e := range srcEdge {
+		if u, err := strconv.Unquote(`"` + e + `"`); err == nil {
+			srcEdge[i] = u
+		}
+	}
+	for _, pre := range []string{"", `"`, "#", `"""`, `"\`, `"""\`} {
+		words(b, "source-boundary", srcEdge, 1, 3, pre, "", all1)
+	}
 	b.flush()
 	run.SetExhaustive(true)
-	run.Note("exhaustive parts: dense^≤%d, \"·string^≤%d, \"\\u·hex^4·\", \"\"\"·block^≤%d, \"\"\"·indent^≤%d·\"\"\", number^≤%d, lineterm^≤%d (%d texts)",
-		run.Scale(3, 4), run.Scale(5, 6), run.Scale(5, 6), run.Scale(7, 9), run.Scale(5, 6), run.Scale(5, 7), b.n)
+	run.Note("exhaustive parts: dense^≤%d, \"·string^≤%d, \"\\u·hex^4·\", \"\"\"·block^≤%d, \"\"\"·indent^≤%d·\"\"\", number^≤%d, lineterm^≤%d, name-boundary^≤%d, ascii^≤2, a·ascii·b, backslash·ascii in both string kinds, \\u·hexedge^4, {,\",#,\"\"\",\"\\,\"\"\"\\}·srcedge^≤3 (%d texts)",
+		run.Scale(3, 4), run.Scale(5, 6), run.Scale(5, 6), run.Scale(7, 9), run.Scale(5, 6), run.Scale(5, 7), run.Scale(4, 5), b.n)
 
-	// 8. random longer texts
+	// 12. random longer texts
 	for i, n := 0, run.Scale(20000, 300000); i < n; i++ {
 		r := run.Rand.Fork()
 		src := randomText(r, run.Scale(14, 30))
@@ -876,7 +901,7 @@ func main() {
 			run.Sample(mkCase(src, mode, "random"))
 		}
 	}
-	// 9. invalid UTF-8
+	// 13. invalid UTF-8
 	for i, n := 0, run.Scale(5000, 60000); i < n; i++ {
 		r := run.Rand.Fork()
 		src := malformed(r)
